@@ -5,6 +5,7 @@ import (
 	"errors"
 	"fmt"
 	"math/big"
+	"sync"
 
 	"github.com/vipnode/vipnode/v2/pool"
 	"github.com/vipnode/vipnode/v2/pool/store"
@@ -49,6 +50,9 @@ type PaymentService struct {
 	WithdrawFee func(*big.Int) *big.Int
 	// WithdrawMin (optional) is the minimum amount required to allow a withdraw.
 	WithdrawMin *big.Int
+
+	// withdrawMu serializes withdrawals, so that a balance is only settled once.
+	withdrawMu sync.Mutex
 }
 
 func (p *PaymentService) verify(sig string, method string, wallet string, nonce int64, args ...interface{}) error {
@@ -109,6 +113,9 @@ func (p *PaymentService) Withdraw(ctx context.Context, sig string, wallet string
 		return ErrWithdrawDisabled
 	}
 
+	p.withdrawMu.Lock()
+	defer p.withdrawMu.Unlock()
+
 	account := store.Account(wallet)
 	balance, err := p.BalanceStore.GetAccountBalance(account)
 	if err != nil {
@@ -132,6 +139,11 @@ func (p *PaymentService) Withdraw(ctx context.Context, sig string, wallet string
 	newBalance := big.NewInt(0)
 	txID, err := p.Settle(account, total, newBalance)
 	if err != nil {
+		return err
+	}
+	// The credit that was just settled has been paid out, deduct it so that
+	// it can't be withdrawn again.
+	if err := p.BalanceStore.AddAccountBalance(account, new(big.Int).Neg(&balance.Credit)); err != nil {
 		return err
 	}
 	logger.Printf("Withdraw from account %q for %d: %s", account, total, txID)
